@@ -77,7 +77,13 @@ bool make_rle(std::string const& v, int w, int h, uint64_t cs, Bytes& b)
                 int n = (int)r.range(3, std::min(left, 7));
                 put8(b, 0); put8(b, (unsigned char)n);
                 int nbytes = r4 ? (n + 1) / 2 : n;
-                for (int i = 0; i < nbytes; ++i) put8(b, (unsigned char)r.below(256));
+                // literal pixel bytes that look like escape codes (00 00, 00 01, 00 02) when a decoder loses its place in the
+                // stream, e.g. while clipping a run at the edge of a region: a quarter zeros, an eighth 1 or 2
+                for (int i = 0; i < nbytes; ++i)
+                {
+                    unsigned q = (unsigned)r.below(8), any = (unsigned)r.below(256);
+                    put8(b, (unsigned char)(q < 2 ? 0 : q == 2 ? 1 + (any & 1) : any));
+                }
                 if ((b.size() - data0) & 1) put8(b, 0);
                 x += n;
             }
